@@ -260,6 +260,17 @@ pub fn run(args: &[String]) {
                         emit(&mut w, &format!("{text}z = a {a} {b} b;\nint last;\n"));
                         emit(&mut w, &format!("{text}z = a {a}{b} b;\nint last;\n"));
                     }
+                    // glued two- and three-character operators in valid statements around the same positions:
+                    // no diagnostic may appear (C04), whatever the position of the operator in the token table
+                    for stmt in ["z >>= 1;", "z <<= 2;", "int z = a >> b;", "int z = a << b;", "int z = a >= b;", "int z = a <= b;", "int z = a == b;", "int z = a != b;", "int z = a && b;", "int z = a || b;", "int z = a ** b;", "z += 1;", "z -= 1;", "z *= 2;", "z /= 2;", "z |= 1;", "z &= 1;", "z ^= 1;", "z %= 2;", "int z = a ++ b;"] {
+                        for pad in ["", "h q;\n", ";\n", "h q; ;\n"] {
+                            let t = format!("{text}{pad}{stmt}\nint last;\n");
+                            let (r, o) = tree_case(&t);
+                            let clean = r.contains(";PE=;LE=;VT=;VE=0;");
+                            let o = if o == "ok" && !clean { "FAIL C04: syntax diagnostics on a valid program (an operator near a 64-token boundary)".to_string() } else { o };
+                            writeln!(w, "tree\t{}\t{}\t{}", enc_text(&t), r, o).unwrap();
+                        }
+                    }
                 }
             }
         }
@@ -356,7 +367,10 @@ pub fn run(args: &[String]) {
         for _ in 0..n {
             body.push_str(pieces[rng.below(pieces.len() as u64) as usize]);
         }
-        let text = match rng.below(4) {
+        let text = match rng.below(6) {
+            // single-quoted strings are STRING tokens too (the validator looks for double quotes inside them)
+            4 => format!("x = '{body}';"),
+            5 => format!("x = 'é\"{body}\"';"),
             0 => format!("x = \"{body}\";"),
             1 => format!("include \"{body}\";"),
             2 => format!("é = \"{body}\" ;"),
